@@ -22,10 +22,10 @@ import (
 // are compared and pairwise non-overlap is asserted on the real contents.
 
 type regSpec struct {
-	NS, Table    string
-	Start, Stop  string
-	ID           uint64
-	Gen          int // distinguishes objects with identical names
+	NS, Table   string
+	Start, Stop string
+	ID          uint64
+	Gen         int // distinguishes objects with identical names
 }
 
 func (r regSpec) fq() string {
